@@ -4,6 +4,8 @@ failing writer: exact counts, clean prefix, prompt stop, termination).
 -/
 import Sqroot.Model.Printer
 import Sqroot.Spec.Print
+import Sqroot.Proofs.PrintSim
+import Sqroot.Proofs.PrintLayout
 namespace Sqroot.Proofs
 open Sqroot.Model
 
@@ -34,7 +36,17 @@ theorem rowStarter_resolve (v : Version) (s : PSettings) (maxDigits : Int) :
     toPOpts v s maxDigits =
       Spec.resolve s.digitsPerRow s.digitsPerColumn s.showCount s.missingDigit s.trailingLineFeed
         (match v with | .v3 => s.leadingDecimal | _ => true) maxDigits := by
-  sorry
+  unfold toPOpts computeRowStarter Spec.resolve
+  rw [Prt.width_eq]
+  generalize Spec.labelWidth s.digitsPerRow s.showCount maxDigits = w
+  dsimp only
+  by_cases hw : w = 0
+  · have : ((w : Nat) : Int) ≤ 0 := by omega
+    rw [if_pos this, if_pos hw]
+    cases v <;> dsimp only <;> (repeat' split) <;> rfl
+  · have : ¬ ((w : Nat) : Int) ≤ 0 := by omega
+    rw [if_neg this, if_neg hw]
+    cases v <;> dsimp only <;> (repeat' split) <;> simp
 
 /-- C10 main theorem: on a writer that does not fail, for every option combination (any integers
 for rows/columns, any rune), every buffer size, and every strictly ascending set of shown
@@ -46,7 +58,16 @@ theorem print_layout (v : Version) (s : PSettings) (maxDigits : Int) (feeds : Li
     ∃ r, printRun v { w := w, st := st } maxDigits s feeds = .ok r ∧
       r.accepted = Spec.layout (toPOpts v s maxDigits) feeds.flatten ∧
       r.written = r.accepted.length ∧ r.err = false ∧ r.pulled = feeds.flatten.length := by
-  sorry
+  have hsp := Prt.run_spec (Hn := False) (Rl := True) (w := w) (N := True) (fun h => h.elim)
+    (fun _ => hw) (fun _ => Prt.ReliableW.noStall hw) v (fun _ => Prt.gapChecksErrOf_true v) st maxDigits s feeds
+  obtain ⟨r, hr⟩ := hsp.1 trivial
+  obtain ⟨b, hb, hacc, hwr, herr, hbuf, hpul⟩ := hsp.2 r hr
+  have he : b.err = false := hb.rel trivial
+  refine ⟨r, hr, ?_, hwr, herr.trans he, hpul he⟩
+  have := hb.eq he
+  rw [hbuf he, List.append_nil] at this
+  rw [hacc, this]
+  exact Prt.emit_layout _ _ hasc hd
 
 /-- C12 clean prefix + exact count: whatever the underlying writer does, if the call returns,
 the bytes it accepted are a prefix of the fault-free output and the count returned is their number -/
@@ -55,7 +76,14 @@ theorem fault_prefix (v : Version) (s : PSettings) (maxDigits : Int) (feeds : Li
     (hasc : StrictAsc feeds.flatten) (hd : ∀ x ∈ feeds.flatten, x.2 ≤ 9)
     (r : PrintResult) (hr : printRun v { w := w, st := st } maxDigits s feeds = .ok r) :
     r.accepted <+: Spec.layout (toPOpts v s maxDigits) feeds.flatten ∧ r.written = r.accepted.length := by
-  sorry
+  have hsp := Prt.run_spec (Hn := False) (Rl := False) (w := w) (N := False) (fun h => h.elim)
+    (fun h => h.elim) (fun h => h.elim) v (fun h => h.elim) st maxDigits s feeds
+  obtain ⟨b, hb, hacc, hwr, -, -, -⟩ := hsp.2 r hr
+  refine ⟨?_, hwr⟩
+  rw [hacc]
+  have := (List.prefix_append b.sink.accepted b.buf).trans hb.pre
+  rw [Prt.emit_layout _ _ hasc hd] at this
+  exact this
 
 /-- C12 error iff incomplete (for writers honouring io.Writer's contract) -/
 theorem fault_err_iff (v : Version) (s : PSettings) (maxDigits : Int) (feeds : List (List (Nat × Nat)))
@@ -63,7 +91,23 @@ theorem fault_err_iff (v : Version) (s : PSettings) (maxDigits : Int) (feeds : L
     (hasc : StrictAsc feeds.flatten) (hd : ∀ x ∈ feeds.flatten, x.2 ≤ 9)
     (r : PrintResult) (hr : printRun v { w := w, st := st } maxDigits s feeds = .ok r) :
     (r.err = false ↔ r.accepted = Spec.layout (toPOpts v s maxDigits) feeds.flatten) := by
-  sorry
+  have hsp := Prt.run_spec (Hn := True) (Rl := False) (w := w) (N := False) (fun _ => hh)
+    (fun h => h.elim) (fun h => h.elim) v (fun h => h.elim) st maxDigits s feeds
+  obtain ⟨b, hb, hacc, -, herr, hbuf, -⟩ := hsp.2 r hr
+  rw [Prt.emit_layout _ _ hasc hd] at hb
+  constructor
+  · intro e
+    have he : b.err = false := herr ▸ e
+    have := hb.eq he
+    rw [hbuf he, List.append_nil] at this
+    rw [hacc, this]; rfl
+  · intro e
+    cases he : b.err
+    · exact herr.trans he
+    · exfalso
+      have h1 := hb.strict trivial he
+      rw [← hacc, e] at h1
+      exact Nat.lt_irrefl _ h1
 
 /-- C12 termination (the obligation the unrepaired code failed, DESIGN §9.1): with the gap loop
 re-checking the error state — a fact regenerated from the source — Fprint/Fwrite return for
@@ -72,22 +116,28 @@ theorem fault_terminates (v : Version) (s : PSettings) (maxDigits : Int) (feeds 
     (w : Nat → List Nat → Nat × Bool × Nat) (st : Nat) (hn : NoStall w)
     (hgap : gapChecksErrOf v = true) :
     ∃ r, printRun v { w := w, st := st } maxDigits s feeds = .ok r := by
-  sorry
+  have hsp := Prt.run_spec (Hn := False) (Rl := False) (w := w) (N := True) (fun h => h.elim)
+    (fun h => h.elim) (fun _ => hn) v (fun _ => hgap) st maxDigits s feeds
+  exact hsp.1 trivial
 
 /-- the regenerated fact itself, for the three versions -/
 theorem gap_loop_checks_err (v : Version) : gapChecksErrOf v = true := by
-  sorry
+  cases v <;> rfl
 
 /-- C12 prompt stop: an error latched by the buffered writer is seen by the printer within the
 same `Consume` … -/
 theorem fault_prompt_latch (p p' : RawPrinter) (d : Int) (h : p.consume d = .ok p')
     (hp : p.w.err = true → p.err = true) : p'.w.err = true → p'.err = true := by
-  sorry
+  exact Prt.consume_latch p p' d h hp
 
 /-- … and once the printer has seen it no further digit is pulled from the sequence -/
 theorem fault_prompt_stop (pr pr' : Printer) (feed : List (Nat × Nat)) (h : pr.feed feed = .ok pr')
     (herr : pr.raw.err = true) : pr'.pulled = pr.pulled := by
-  sorry
+  cases feed with
+  | nil => cases h; rfl
+  | cons x rest =>
+    rw [Prt.feed_cons, if_pos (by simp [RawPrinter.canConsume, herr])] at h
+    cases h; rfl
 
 /-- the buffered writer never reorders or invents bytes: what the sink accepted plus what is still
 buffered is a prefix of what was handed in, and equal to it while no error is latched -/
@@ -95,6 +145,11 @@ theorem bufw_write_spec (b b' : BufW) (p : List Nat) (n : Nat) (h : b.write p = 
     (b'.sink.accepted ++ b'.buf) <+: (b.sink.accepted ++ b.buf ++ p) ∧
     (b'.err = false → b'.sink.accepted ++ b'.buf = b.sink.accepted ++ b.buf ++ p) ∧
     (b.err = true → b' = b ∨ (b'.sink.accepted = b.sink.accepted ∧ b'.err = true)) := by
-  sorry
+  have h0 : Prt.BInv False False b.sink.w b (b.sink.accepted ++ b.buf) :=
+    ⟨rfl, List.prefix_refl _, (fun _ => rfl), (fun hf => hf.elim), (fun hf => hf.elim)⟩
+  have hsp := Prt.write_spec (Hn := False) (Rl := False) (w := b.sink.w) (N := False)
+    (fun hf => hf.elim) (fun hf => hf.elim) (fun hf => hf.elim) p h0
+  obtain ⟨h1, -, h3⟩ := hsp.2 (b', n) h
+  exact ⟨h1.pre, h1.eq, fun e => Or.inl (h3 e)⟩
 
 end Sqroot.Proofs
